@@ -32,6 +32,8 @@ def run_check(prop, tier='quick', overrides=None, quiet=False, replay=None, writ
         mod.run(ctx, R)
         if ctx.sliced:
             R.note('rule-relevant slicing used for: ' + ', '.join(sorted(ctx.sliced)))
+        if ctx.unspliced:
+            R.note('helper splicing switched off (path explosion) for: ' + ', '.join(sorted(ctx.unspliced)))
         if tier == 'thorough' and overrides is None and not replay:
             thorough_extras(prop, mod, R)
     except AnalysisError as e:
